@@ -95,8 +95,9 @@ claim("C06",
       "validated natively by e2e_c06_compiled_vs_interpreted_f64.",
       "DESIGN.md §4/C06")
 claim("C16",
-      "Bounded model checking of the real parse_response on semi-concrete wire images: a complete response returns status, success flag and "
-      "exactly the body bytes that followed the header block (all body byte values); a response cut at every offset inside its head is an "
+      "Bounded model checking of the real parse_response on semi-concrete wire images: a response cut at every offset inside its head is an "
+      "error (quick tier, two harnesses); thorough tier: a complete response returns status, success flag and exactly the body byte that "
+      "followed the header block, and a body shorter than its Content-Length is an "
       "error; a body shorter than the declared Content-Length is an error (defect found, repaired in 8e20dd1). Partial: one "
       "header, bodies <= 1 byte in the quick tier; sockets, time-outs and hangs (tokio) are outside.",
       "format! in error paths is stubbed (message text irrelevant). Trusted: Kani's String/Vec models.",
